@@ -18,8 +18,8 @@ def obligations(tier, ctx):
         al = "[" + ", ".join(a) + "]"
         base_params = [("command", "str")] + [(x, "str") for x in a] + [("envval", "str")]
         base_pre = ["1 <= len(command) <= 2"] + [f"len({x}) <= 2" for x in a] + ["len(envval) <= 2"]
-        for envsel in (0, 1, 2, 3):
-            if tier == "quick" and nargs == 2 and envsel in (1, 3):
+        for envsel in (0, 1, 2, 3, 4):
+            if tier == "quick" and ((nargs == 2 and envsel in (1, 3)) or (envsel == 4 and nargs != 1)):
                 continue
             obs.append(Ob(name=f"loader_a{nargs}_e{envsel}", params=base_params + [("tsel", "int"), ("extra", "bool"), ("others", "bool")],
                           pre=base_pre + ["0 <= tsel <= 3"], call=f"H.loader(command, {al}, {envsel}, envval, tsel, extra, others)",
@@ -33,7 +33,7 @@ def obligations(tier, ctx):
                               call=f"H.runner(command, {al}, {envsel}, envval, {ns})", backend="F", timeout=300, family="multi-server runner"))
     # realistic command/argument texts (bare names present on the host PATH, absolute and relative paths, spaces, quotes, Unicode, empty argument)
     for which, nm in ((0, "loader"), (1, "cli"), (2, "runner")):
-        obs.append(Ob(name=f"corpus_{nm}", params=[("c", "int"), ("a", "int"), ("e", "int")], pre=["0 <= c <= 5", "0 <= a <= 4", "0 <= e <= 3"],
+        obs.append(Ob(name=f"corpus_{nm}", params=[("c", "int"), ("a", "int"), ("e", "int")], pre=["0 <= c <= 5", "0 <= a <= 4", "0 <= e <= 4"],
                       call=f"H.corpus_entry({which}, c, a, e)", backend="P", timeout=300, family="command/argument corpus by symbolic index (Pydantic backend)"))
     return obs
 
